@@ -321,6 +321,20 @@ def main(ck, tier, w):
         exact = Fraction(sum(lst), len(lst))
         if not isinstance(o, dict) or 'mean' not in o or abs(Fraction(o['mean']) - exact) > Fraction(1, 10 ** 5) + abs(exact) / 10 ** 12:
             ck.violation('get_mean(%s...) = %s, exact mean is %s' % (lst[:4], o, float(exact)), {'list': lst[:50], 'observed': o, 'tags': []})
+    # the reward schedule far out: 9th halving (where 50*(COIN>>n) and (50*COIN)>>n part ways), 33rd (reward reaches 0), 64th and
+    # beyond (a 64-bit shift by >= 64), heights beyond 32 bits; three blocks around each boundary, coinbases above and below
+    from lib import extremes as xt
+    for H in (1889999, 6929999, 13439999, 13440000 + 209999, 20000000, 2 ** 32 + 5, 2 ** 63 + 209999):
+        sb = xt.special_height_chain(H + 1, 'bitcoin', seed)
+        xd = write_dir(w, sb, H)
+        for rel in (False, True):
+            r = run.run_parser(xd.path, 'simplestats', start=H, release=rel)
+            ck.evals()
+            ck.distinct(('late-era', H, rel))
+            probs = ['exit status %d: %s' % (r.rc, r.stderr[-300:])] if r.rc != 0 else compare(chains.parse_stats(r.stdout), expected_from_ref([(H + k, b) for k, b in enumerate(sb)], 'bitcoin'))
+            if probs:
+                ck.violation('chain at heights %d..%d (%s build): %s' % (H, H + 2, 'release' if rel else 'debug', '; '.join(probs[:3])),
+                             {'first_height': H, 'build': 'release' if rel else 'debug', 'observed': r.brief(), 'tags': []})
     # counts beyond 16 bits (66 000 transactions in a block; 65 600 inputs, outputs, witness items; 66 000-byte scripts)
     from lib import extremes
     xb = extremes.wide_chain('%d-c15' % seed)
